@@ -33,6 +33,8 @@ const (
 	tRefsCodec
 	tKeyFlip
 	tKeyResize
+	tNextDup
+	tRefsDup
 	nTamper
 )
 
@@ -46,7 +48,10 @@ const (
 )
 
 var tamperNames = [...]string{"payload-byte", "log-id", "next-add", "next-drop", "next-order", "refs-add", "refs-drop", "refs-order",
-	"version", "clock-id", "clock-time", "key-substituted", "sig-substituted", "sig-bitflip", "clock-id-emptied", "next-link-codec", "refs-link-codec", "key-bitflip", "key-resized", "unsigned", "key-removed", "foreign-log-id"}
+	"version", "clock-id", "clock-time", "key-substituted", "sig-substituted", "sig-bitflip", "clock-id-emptied", "next-link-codec", "refs-link-codec", "key-bitflip", "key-resized", "next-duplicated", "refs-duplicated", "unsigned", "key-removed", "foreign-log-id"}
+
+// dupLinksCanonicalised is set by the world while its codec is the link-encrypting one.
+var dupLinksCanonicalised bool
 
 type tamperResult struct {
 	e         iface.IPFSLogEntry
@@ -187,6 +192,20 @@ func tamper(r *Run, e iface.IPFSLogEntry, kind int, other iface.IPFSLogEntry, ot
 			codec = cid.DagProtobuf
 		}
 		lst[i] = cid.NewCidV1(codec, lst[i].Hash())
+		res.applied = true
+	case tNextDup:
+		// (under the link-encrypting codec the pre-signature step works on a copy of the entry, and copies
+		// drop repeated links: a repetition is canonicalised away there, nothing is claimed)
+		if len(c.Next) == 0 || dupLinksCanonicalised {
+			return res
+		}
+		c.Next = append(c.Next, c.Next[r.Choose("t-pos", len(c.Next))])
+		res.applied = true
+	case tRefsDup:
+		if len(c.Refs) == 0 || dupLinksCanonicalised {
+			return res
+		}
+		c.Refs = append(c.Refs, c.Refs[r.Choose("t-pos", len(c.Refs))])
 		res.applied = true
 	case tKeyFlip:
 		if len(c.Key) == 0 {
